@@ -415,3 +415,76 @@ def check_invalidation(model, ci, ma):
                       '%s.%s writes %s, from which %s.%s computes the remembered self.%s' % (ci.name, name, ', '.join(touched), ci.name, ma.meth, ma.attr),
                       resets, '' if resets else 'self.%s is not reset here: after this call %s.%s still returns the value computed before the change'
                       % (ma.attr, ci.name, ma.meth))
+
+
+# ---------------------------------------------------------------- module-level caches
+def module_cache_names(module):
+    """names bound at module level to an (initially empty) mapping: {}, dict(), OrderedDict(), defaultdict(..),
+    weakref.WeakKeyDictionary() / WeakValueDictionary()."""
+    out = set()
+    for st in module.tree.body:
+        if isinstance(st, ast.Assign) and len(st.targets) == 1 and isinstance(st.targets[0], ast.Name):
+            v = st.value
+            if isinstance(v, ast.Dict) and not v.keys:
+                out.add(st.targets[0].id)
+            elif isinstance(v, ast.Call) and (dotted(v.func) or '').split('.')[-1] in (
+                    'dict', 'OrderedDict', 'defaultdict', 'WeakKeyDictionary', 'WeakValueDictionary') and not v.keywords \
+                    and all(isinstance(a, (ast.Name, ast.Attribute)) for a in v.args):
+                out.add(st.targets[0].id)
+    return out
+
+
+def check_module_caches(module):
+    """for every function of the module that stores into a module-level mapping (directly, or into a per-key sub-mapping
+    reached through ``sub = CACHE.setdefault(k1, {})`` / ``CACHE[k1]`` / ``CACHE.get(k1)``): the stored value may depend
+    only on parameters that the key(s) depend on (or that every hit is validated against).  Yields Findings."""
+    caches = module_cache_names(module)
+    if not caches:
+        return
+    for q, fn in module.functions.items():
+        params = {a.arg for a in fn.args.args + fn.args.kwonlyargs} - {'self', 'cls'}
+        sub = {}     # local alias -> (cache, outer key expr or None)
+        for n in walk_local(fn):
+            if isinstance(n, ast.Assign) and len(n.targets) == 1 and isinstance(n.targets[0], ast.Name):
+                v = n.value
+                if isinstance(v, ast.Name) and v.id in caches:
+                    sub[n.targets[0].id] = (v.id, None)
+                elif isinstance(v, ast.Subscript) and isinstance(v.value, ast.Name) and v.value.id in caches:
+                    sub[n.targets[0].id] = (v.value.id, v.slice)
+                elif isinstance(v, ast.Call) and isinstance(v.func, ast.Attribute) and v.func.attr in ('setdefault', 'get') \
+                        and isinstance(v.func.value, ast.Name) and v.func.value.id in caches and v.args:
+                    sub[n.targets[0].id] = (v.func.value.id, v.args[0])
+        stores = []
+        for n in walk_local(fn):
+            if isinstance(n, ast.Assign):
+                for t in n.targets:
+                    if isinstance(t, ast.Subscript) and isinstance(t.value, ast.Name) and not isinstance(t.slice, ast.Slice):
+                        if t.value.id in caches:
+                            stores.append((n, t.value.id, [t.slice]))
+                        elif t.value.id in sub:
+                            c, k1 = sub[t.value.id]
+                            stores.append((n, c, [k for k in (k1, t.slice) if k is not None]))
+        if not stores:
+            continue
+        defs, names_of = _deps(fn, '\0')
+        validated = set()
+        try:
+            from ..props._common import conditions_at
+            last = max(st.lineno for st, _, _ in stores)
+            for r in walk_local(fn):
+                if isinstance(r, ast.Return) and r.value is not None and r.lineno < last:
+                    for c in conditions_at(fn, r):
+                        validated |= _closure(defs, names_of(ast.parse(c, mode='eval').body), stop=set(caches) | set(sub)) & params
+        except Exception:
+            validated = set()
+        for st, cname, keys in stores:
+            if isinstance(st.value, ast.Dict) and not st.value.keys:
+                continue     # creating the per-key sub-mapping
+            kdeps = set()
+            for k in keys:
+                kdeps |= _closure(defs, names_of(k)) & params
+            vdeps = _closure(defs, names_of(st.value), stop=set(caches) | set(sub)) & params
+            miss = sorted(vdeps - kdeps - validated)
+            yield q, Finding('cache-key-complete', st, '%s: %s[%s] = %s' % (q, cname, ', '.join(unparse(k)[:30] for k in keys), unparse(st.value)[:40]),
+                             not miss, '' if not miss else 'the value kept in the module-level cache depends on %s but its key does not: a later '
+                             'call that differs only in %s gets what was computed for the earlier one' % (', '.join(miss), ', '.join(miss)))
